@@ -4,7 +4,9 @@
    that the bytes of each surface decode, and that the header re-reads equal, are established on the
    implementation by the check (re-opening every finished file), see DESIGN.md. *)
 From DDSV Require Import base.Machine model.Layout model.DecoderSM model.EncoderSM spec.SpecLayout
-  proofs.LayoutProofs proofs.DecoderProofs.
+  proofs.LayoutProofs proofs.DecoderProofs model.EncChunks proofs.EncChunksProofs.
+From Coq Require Import List.
+Import ListNotations.
 
 (* whenever the encoder model is at the end of a texture / array / cube layout, it has written exactly
    header_len + the layout's data length, and that is the only state in which finish succeeds *)
@@ -33,5 +35,17 @@ Theorem C10_layout_total : forall h p L, wf_pixel_info p -> from_header_with h p
   tiles 0 (spec_flatten L) (spec_total L) /\ layout_data_len L = Some (spec_total L).
 Proof. intros h p L Hp H. destruct (layout_tiling h p L Hp H) as [_ [A [B _]]]. split; assumption. Qed.
 
-Definition C10_all := (C10_finished_len_tex, C10_finished_len_vol, C10_surface_len, C10_layout_total).
+(* the sub-sampled encoders (uncompressed_universal_subsample / process_subsample, model/EncChunks.v, tag 54) cut every row
+   into chunks of 512 / bw * bw pixels; whatever the buffer size (at least one block), the blocks written for a row are
+   the blocks of the whole row - ceil(width / bw) of them, the last one padded with the last pixel - so a surface has
+   exactly the declared byte length *)
+Theorem C10_subsample_row_blocks : forall (X Y : Type) (bw : nat) (fblk : list X -> Y) (dX : X), (1 <= bw)%nat ->
+  forall (bufpx : nat) (row : list X), (bw <= bufpx)%nat ->
+  subsample_row X Y bw fblk dX bufpx row = subsample_blocks X Y bw fblk dX row /\
+  length (subsample_row X Y bw fblk dX bufpx row) = ((length row + bw - 1) / bw)%nat.
+Proof. exact subsample_row_eq. Qed.
+Example C10_subsample_ex : subsample_row nat (list nat) 2 (fun b => b) 0%nat 5 [1; 2; 3; 4; 5; 6; 7]%nat = [[1; 2]; [3; 4]; [5; 6]; [7; 7]]%nat.
+Proof. reflexivity. Qed.
+
+Definition C10_all := (C10_finished_len_tex, C10_finished_len_vol, C10_surface_len, C10_layout_total, C10_subsample_row_blocks).
 Redirect "props/C10.assumptions" Print Assumptions C10_all.
